@@ -7,6 +7,7 @@ def bad (msg : String) : J := .obj [("bad_request", .str msg)]
 
 def eName : E → String
   | .type => "TypeError" | .value => "ValueError" | .key => "KeyError" | .index => "IndexError"
+  | .perm => "WritePermissionError"
 
 def errJ : Option E → J
   | some x => .str (eName x)
@@ -87,19 +88,29 @@ def runList (env : Env) : TList → List ListOp → List J
       :: runList env l' ops
 
 /-- An operation of a dict / object history: a `DictOp`, or a rebind with (nested) key paths. -/
-inductive AnyOp where
-  | plain (op : DictOp)
-  | paths (ws : List (String × List PKey × Bool × Val))
+abbrev AnyOp := TOp
+
+/-- The harness's ground truth of partiality (`deep_missing`): some member, at any depth, is
+`MISSING_VALUE` or a partial object — also below `Any`-typed fields, about which the schema (and so
+`conformsDB`) says nothing. -/
+partial def deepMissing : Val → Bool
+  | .missing => true
+  | .obj _ _ part => part
+  | .list xs => xs.any deepMissing
+  | .tuple xs => xs.any deepMissing
+  | .dict kvs => kvs.any (fun kv => deepMissing kv.2)
+  | _ => false
+
+def completeB (env : Env) (d : TDict) : Bool :=
+  conformsDB env false d && !(d.kvs.any fun kv => deepMissing kv.2)
 
 def runDict (env : Env) (p0 : Bool) : TDict → List (AnyOp × Option Bool) → List J
   | _, [] => []
   | d, (op, scope) :: ops =>
     let p := scope.getD p0
-    let (d', e) := match op with
-      | .plain o => dictStep env p hasMissing d o
-      | .paths ws => pathBatch env hasMissing d ws
+    let (d', e) := tStep env p hasMissing d op
     .obj [("err", errJ e), ("items", kvsToJ d'.kvs), ("conforms", .bool (conformsDB env true d')),
-          ("complete", .bool (conformsDB env false d'))] :: runDict env p0 d' ops
+          ("complete", .bool (completeB env d'))] :: runDict env p0 d' ops
 
 def anyOpOfJ : J → Option AnyOp
   | .arr [.str "rebind_paths", .arr ws] => (ws.mapM pathEntryOfJ).map .paths
@@ -130,7 +141,7 @@ def handle (j : J) : J :=
         match c with
         | .error e => .obj [("construct", .str (eName e)), ("steps", .arr [])]
         | .ok d => .obj [("construct", kvsToJ d.kvs), ("conforms", .bool (conformsDB env true d)),
-                         ("complete", .bool (conformsDB env false d)),
+                         ("complete", .bool (completeB env d)),
                          ("steps", .arr (runDict env p d ops))]
       | _, _, _, _ => bad "dict"
     else bad "op"
